@@ -72,17 +72,17 @@ static void * lbody(void * a) {
     case L_SPAWN: {
       myth_thread_t t; void * rv = 0;
       __sync_lock_release(&me->active);
-      myth_create_ex(&t, 0, child, (void *)(intptr_t)o->a);
+      Z0(myth_create_ex(&t, 0, child, (void *)(intptr_t)o->a));
       myth_join(t, &rv);
       if (__sync_lock_test_and_set(&me->active, 1)) mt_fail("thread %d was resumed while it was already running", id);
       if (rv != (void *)(intptr_t)o->a) mt_fail("child value %p", rv);
       resume_check(me, i, "create+join"); break; }
     case L_LOCK:
       __sync_lock_release(&me->active);
-      myth_mutex_lock(&L.m);
+      Z0(myth_mutex_lock(&L.m));
       if (__sync_lock_test_and_set(&me->active, 1)) mt_fail("thread %d was resumed while it was already running", id);
       wit_enter(&L.wit, "lock"); do_yields(o->a); wit_leave(&L.wit, "unlock");
-      myth_mutex_unlock(&L.m);
+      Z0(myth_mutex_unlock(&L.m));
       resume_check(me, i, "lock"); break;
     }
     me->pc = i + 1;
@@ -117,14 +117,14 @@ void scen_c02_lib(mt_case * c) {
   mt_lib_start(c, &e, 0);
   myth_steal_func_t prev = 0;
   if (L.use_custom) prev = myth_wsapi_set_stealfunc(my_steal);
-  myth_mutex_init(&L.m, 0);
+  Z0(myth_mutex_init(&L.m, 0));
   myth_thread_t th[16];
   for (int t = 0; t < L.K; t++) {
     myth_thread_attr_t at; myth_thread_attr_init(&at); at.stacksize = 0; at.child_first = !L.pf[t];
-    myth_create_ex(&th[t], &at, lbody, (void *)(intptr_t)t);
+    Z0(myth_create_ex(&th[t], &at, lbody, (void *)(intptr_t)t));
     mv_progress();
   }
-  for (int t = 0; t < L.K; t++) { myth_join(th[t], 0); mv_progress(); }
+  for (int t = 0; t < L.K; t++) { Z0(myth_join(th[t], 0)); mv_progress(); }
   if (L.use_custom) myth_wsapi_set_stealfunc(prev);
   mt_lib_finish();
   for (int t = 0; t < L.K; t++) {
